@@ -307,6 +307,17 @@ def render_rule(rep, prog, cfg):
             if k == 1:
                 one = (a["true"], a["false"]) if a["op"] == "Eq" else (a["false"], a["true"])
     if one is None:
+        # `match <[Command; 1]>::try_from(self.0) { Ok([only]) => .., Err(commands) => .. }`: converting the vector into an array
+        # of one succeeds exactly when its length is 1
+        for bb, t in b.calls():
+            if any(n.endswith("TryFrom::try_from") or n.endswith("TryInto::try_into") for n in callee_names(t)) and t.get("dest") is not None \
+                    and "; 1]" in b.local_ty(t["dest"]["l"]).split(",")[0]:
+                for sw in tables.discr_switches(b):
+                    if sw["place"]["l"] == t["dest"]["l"] and not sw["place"]["p"]:
+                        okt, errt = sw["arms"].get("Ok", sw["otherwise"]), sw["arms"].get("Err", sw["otherwise"])
+                        if okt != errt:
+                            one = (okt, errt)
+    if one is None:
         rep.fail(rule, cfg + "/single test", b.loc(b.span), "no `len == 1` test found in CommandList::render (idiom unknown: failing closed)")
         return
     single = reach(g.succs, [one[0]], avoid=[one[1]])
